@@ -222,6 +222,21 @@ Section H.
     - intros Hsrc f Hin. rewrite (hops_frame ops _ src dst A Hsep Hne Hd Hsrc). apply C. exact Hin.
     - intros Hdst f. rewrite (hops_frame ops _ dst src A (sep_sym _ _ _ Hsep) (not_eq_sym Hne) Hd Hdst). apply B.
   Qed.
+
+  (* Base / Null / Mul by the base copy a GROUP CONSTANT (object [cst]) into the receiver [p]: when
+     the copy is deep, no later write to the receiver changes the constant *)
+  Theorem constant_intact : forall (h : heap) (cst p : obj) (fs : list field) (ops : list hop),
+      wf h -> cst <> p ->
+      (forall f g, ~ In f fs -> bind h p f <> bind h cst g) ->
+      Forall (fun o => hop_target o = p) ops -> Forall hop_deep ops ->
+      forall f, look (run_hops ops (deep_copy p cst fs h)) cst f = look h cst f.
+  Proof.
+    intros h cst p fs ops Hw Hne Hout Ht Hd f.
+    assert (Ht' : Forall (fun o => hop_target o = cst \/ hop_target o = p) ops).
+    { eapply Forall_impl; [|exact Ht]. intros a Ha. right. exact Ha. }
+    destruct (clone_independent_gen h cst p fs ops Hw Hne Hout Ht' Hd) as [_ [_ H3]].
+    apply H3. exact Ht.
+  Qed.
 End H.
 
 Arguments HWrite {val}. Arguments HRebind {val}. Arguments HShare {val}.
